@@ -35,6 +35,12 @@ CLAIMED["C05"] = dict(
    text="Every generated history (<=12 operations over a pool of Text values built four different ways, raw integer offsets inside/at/beyond the ends and negative) is executed on the real Text and on an ordinary-list model; plain text, len() and per-character effective style are compared after each operation, and style-only operations must leave the characters unchanged.",
    note="Constructor spans inside the text; inserted padding / tab fill / ellipsis characters have unconstrained style; join separators carry no base style; divide offsets sorted within the text.",
    ref="5 C05")
+CLAIMED["C02"] = dict(
+   technique="Hypothesis property test over unique-character texts: bijection on non-space characters, per-character style = independent span fold, fit, and word-break rule",
+   level="exploration",
+   text="Generated texts whose non-space characters are all distinct are wrapped through Text.wrap and through console rendering at generated widths/justify/overflow/no_wrap/tab sizes; because each output character identifies its input offset, dropping, duplication, reordering, wrong styles and illegitimate word breaks are all decided exactly per case.",
+   note="Unique non-space characters per case; padding and ellipsis exempt from the style clause; str.isspace() whitespace; tabs expand as str.expandtabs per line.",
+   ref="5 C02")
 NOT_YET = {}
 props = [json.loads(l) for l in open(os.path.join(V, "properties.jsonl"))]
 checks = []
